@@ -140,11 +140,20 @@ class ScopeGen:
             yn, zn = rng.sample(NAMES, 2)
             inner.append("    y = %s;" % yn)
             inner.append("    z = %s;" % zn)
+            deep = rng.random() < 0.35
+            if deep:
+                # one level further down: the scopes of the intermediate level (m's own members if it is `rec`)
+                # must still be in the chain when the reference at the leaf is resolved
+                inner.append("    t = {")
+                inner.append("      u = %s;" % rng.choice(NAMES))
+                inner.append("    };")
             body.append("  m = %s{" % ("rec " if mrec else ""))
             body.extend(inner)
             body.append("  };")
             probes.append(["m", "y"])
             probes.append(["m", "z"])
+            if deep:
+                probes.append(["m", "t", "u"])
         with_probes: list[list[str]] = []
         if self.allow_with and rng.random() < 0.3:
             # a nested `with` expression as attribute value: its environment is weak against every enclosing
@@ -165,7 +174,7 @@ class ScopeGen:
         if not probes:
             body.append("  x1 = n1;")
             probes.append(["x1"])
-        rng.shuffle(body) if rng.random() < 0.3 and not any(l.startswith("  m = ") or l.startswith("  w = ") or l.startswith("    ") or l == "  };" for l in body) else None
+        rng.shuffle(body) if rng.random() < 0.3 and not any(l.startswith("  m = ") or l.startswith("  w = ") or l.startswith("    ") or l.startswith("      ") or l == "  };" for l in body) else None
         text = "\n".join(out)
         if out:
             text += "\n"
